@@ -187,6 +187,24 @@ def gen_cases(tier, rng):
             add("bu", "%s %s" % (name, hexs(rb(rng, nin))))
         add("bu", "%s %s" % (name, hexs(b"\xff" * nin)))
         add("bu", "%s %s" % (name, hexs(bytes(nin))))
+    # encoding-layer entry points above the dispatcher (src/encoding/byte_stream_split.c): float/double wrappers and the
+    # generic FLBA transposition; capacity exact / one byte short / NULL output / negative count / type_length 0
+    for kind, w in (("ef", 4), ("df", 4), ("ed", 8), ("dd", 8)):
+        for n in range(0, 36):
+            add("bapi_" + kind, "%d 0 %s" % (n, hexs(rb(rng, n * w))), n > 0)
+        for n in (1, 4, 17):
+            add("bapi_" + kind, "%d 1 %s" % (n, hexs(rb(rng, n * w))))
+            add("bapi_" + kind, "%d 2 %s" % (n, hexs(rb(rng, n * w))))
+    for k in (1, 2, 3, 5, 12, 16):
+        for n in range(0, 10):
+            add("bapi_e%d" % k, "%d 0 %s" % (n, hexs(rb(rng, n * k))), n > 0)
+            add("bapi_d%d" % k, "%d 0 %s" % (n, hexs(rb(rng, n * k))), n > 0)
+        add("bapi_e%d" % k, "3 1 %s" % hexs(rb(rng, 3 * k)))
+        add("bapi_d%d" % k, "3 1 %s" % hexs(rb(rng, 3 * k)))
+        add("bapi_d%d" % k, "3 3 %s" % hexs(rb(rng, 3 * k)))
+        add("bapi_e%d" % k, "3 2 %s" % hexs(rb(rng, 3 * k)))
+    add("bapi_e0", "2 0 -")
+    add("bapi_d0", "2 0 -")
     # memset / memcpy helpers: every length 0..4*64+3 and beyond the 256-byte unrolled loop
     for n in list(range(0, 260)) + [300, 511, 512, 513, 600, 777]:
         add("mset", "%d %x" % (n, rng.getrandbits(8)), n > 0)
@@ -205,6 +223,12 @@ def gen_big_cases():
     dense / sparse / every-8th data (generated inside the driver from pattern + seed).  The Coq kernel theorems cover every
     count in the model; this stream is what ties large counts (lane counters, accumulators, index arithmetic) to the C code."""
     cs = [(op, "%d %s %d" % (n, pat, vlib.SEED), True, "sp") for n in BIG_COUNTS for pat in BIG_PATTERNS for op in BIG_OPS]
+    # the wrappers of the encoding layer sit ABOVE the dispatcher: counts around 4096 / 32768 / 65536 (a blocked wrapper would
+    # be wrong at every ISA level)
+    for n in (4095, 4096, 4097, 8193, 32767, 32768, 32769, 65535, 65536, 65537, 2**18 + 9):
+        for pat in BIG_PATTERNS:
+            for kind in ("ef", "df", "ed", "dd", "e12", "d12"):
+                cs.append(("bapi_" + kind, "%d %s %d" % (n, pat, vlib.SEED), True, "sp"))
     random.Random(vlib.SEED).shuffle(cs)        # spread the expensive counts over the shards
     return cs
 
@@ -469,7 +493,7 @@ def check_kernels(rep, tier, rng, an, drv, drv_plain, run_, relevant):
         if a.startswith("OK ") and not b.startswith("UNMODELLED") and b.split()[:3] != a.split()[:3]:
             rep.tie_broken("extracted model differs from the implementation (plain build): model %s / impl %s" % (b[:300], a[:300]), li)
     # 3. through carquet_dispatch_* under capability masks (hook)
-    dops = set(DISPATCH_OPS.values())
+    dops = set(DISPATCH_OPS.values()) | {"bapi_ef", "bapi_df", "bapi_ed", "bapi_dd"}
     csd = [c for c in cs if c[0] in dops]
     det = an["detected"]
     if tier == "thorough":
@@ -599,7 +623,8 @@ KERNEL_STATUS_NOTE = {
           "fill_def_levels (sse)", "memset/memcpy helpers (sse, avx2, avx512)", "find_run_length_i32 (sse, avx2, avx512)",
           "match_length (sse)", "match_copy (sse)", "crc32c (sse)", "fixed-width bit unpackers (3 sse, 4 avx2, 3 avx512)"],
     "b": [],
-    "c": [],
+    "c": ["not kernels: the encoding-layer wrappers of src/encoding/byte_stream_split.c (capacity check + dispatcher call, generic FLBA "
+          "transposition) are covered by the differential run only"],
 }
 
 
